@@ -226,7 +226,7 @@ fn enf_case(rng: &mut Rng, sum: &mut Summary, thorough: bool) -> EnfCase {
         let lvl = rng.below(3);
         let at = pick_attrs(rng, rich);
         if rng.chance(1, 3) { let s = pick_size(rng, &cfg); push(&mut real, Op::SetSize(s), &mut admitted, sum); }
-        let max_adds = if thorough { 1100 } else { 115 };
+        let max_adds = if thorough { 160 } else { 115 };
         let mut refusals = 0; let mut i = 0u64;
         let base4 = (*rng.pick(FIRST_OCTETS) << 24) | ((rng.below(256) as u32) << 16);
         let base6 = (0x2001_0db8u128 << 96) | ((rng.below(60000) as u128) << 80) | ((rng.below(60000) as u128) << 64);
@@ -459,7 +459,7 @@ fn main() {
     sum.rule = "three case families. enforcer: histories of add/remove/probe/set_network_size on the real IPDiversityEnforcer under default, testnet, permissive and random small-cap configurations (caps 0..9), addresses drawn from small prefix trees (IPv4 /16-/24-host, IPv6 /32-/48-/64-host) with ASN/country/hosting/VPN attributes, plus directed runs that fill one prefix until two refusals, give slots back and retry, and network sizes at k/fraction-1, k/fraction, k/fraction+1. engine: DhtCoreEngine::add_node/evict_node/handle_node_failure (Strict with cached validator verdicts, and LogOnly) with every address text the library renders (ip, ip:port, NetworkAddress::to_string() with and without four-word suffix, garbage), directed fills of an IP, /24, /16, /64, /48, /32, a region (50/51) and a bucket (8/9). bootstrap: BootstrapManager::add_peer walks. After EVERY operation the verdict and the full counter statistics are compared. Non-trivial = contains at least one admission and one refusal; distinct = different (configuration, operations, verdicts).".into();
     let mut w = CaseWriter::new(&args.out, "cases_c13", HEADER, "tcase", "check_case", "prop_case", 20);
     let thorough = args.thorough();
-    let (n_enf, n_eng, n_boot) = if thorough { (5000, 1500, 300) } else { (330, 130, 30) };
+    let (n_enf, n_eng, n_boot) = if thorough { (3000, 1000, 200) } else { (330, 130, 30) };
     let mut id = 0u64;
     let mut seen = std::collections::HashSet::new();
     let prev_hook = std::panic::take_hook();
